@@ -374,6 +374,26 @@ def _slicer_group(ctx, rng, judge, control):
         judge([Fault("slicer-unknown-kwarg", 0, name)], mk_kw, c_ok)
         judge([Fault("slicer-unknown-reference-keyword", 0, name)], lambda mk=mk_ref: mk().slice_(sl_data), c_ok)
         judge([Fault("slicer-reference-wrong-type", 0, name)], lambda mk=mk_type: mk().slice_(sl_data), c_ok)
+    # too few intervals for the declared minimum - single calls and a slicer OBJECT that has seen a narrow data set before
+    from virocon import WidthOfIntervalSlicer
+
+    wide = np.abs(rng.weibull(1.5, 600)) * 2.0 + 0.01
+    two = np.r_[rng.uniform(0.05, 0.45, 200), rng.uniform(0.55, 0.95, 200)]  # two populated intervals of width 0.5
+    narrow = rng.uniform(0.05, 0.45, 300)
+    c_w = control(lambda: WidthOfIntervalSlicer(0.5, min_n_points=20, min_n_intervals=3).slice_(wide))
+    judge([Fault("too-few-intervals", 0, "width-slicer-two-populated-intervals")], lambda: WidthOfIntervalSlicer(0.5, min_n_points=20, min_n_intervals=3).slice_(two), c_w)
+    judge([Fault("too-few-intervals", 0, "width-slicer-narrow-value-range")], lambda: WidthOfIntervalSlicer(0.5, value_range=(0, 0.4), min_n_points=20, min_n_intervals=3).slice_(wide), c_w)
+    judge([Fault("too-few-intervals", 0, "width-slicer-gridded-data")], lambda: WidthOfIntervalSlicer(1.0, min_n_points=1, min_n_intervals=10).slice_(np.repeat(np.arange(6.0), 30)), c_w)
+
+    def reused():
+        sl = WidthOfIntervalSlicer(0.5, min_n_points=20, min_n_intervals=3)
+        try:
+            sl.slice_(narrow)
+        except RuntimeError:
+            pass
+        return sl.slice_(two)
+
+    judge([Fault("too-few-intervals", 0, "width-slicer-reused-after-narrow-data")], reused, c_w)
 
 
 
